@@ -212,11 +212,16 @@ def judge_symmetric(ctx, case, tag, a, err, mat, absmat, p):
   mi = [flat[i * n:(i + 1) * n] for i in range(n)]
   mabs = [flat[(n + i) * n:(n + i + 1) * n] for i in range(n)]
   aabs = [abs(v) for v in ai]
+  # rounding-noise floor: a row of a sparse system can consist of nothing but
+  # coefficients that are zero in exact arithmetic and ~1e-17 in floats (its
+  # own scale is then noise as well: thorough seed 41).  1e-12 * |a|max * |m|max
+  # is far above that noise and far below any wrong equation.
+  floor = max(aabs) * max(max(row) for row in mabs)
   for i in range(1, n):
     res = abs(sum(ai[j] * mi[i][j] for j in range(n)))
     scale = sum(aabs[j] * mabs[i][j] for j in range(n))
     ctx.err(tag + ":row-residual/scale", ratio(res, scale), 1e-9)
-    if not within(res, scale):
+    if not within(res, scale) and res * 10 ** 12 > floor:
       ctx.violation(tag + "/normal-equation-residual", case, row=i,
                     a=[float(v) for v in a], residual=ratio(res, da * dm),
                     scale=ratio(scale, da * dm), ratio=ratio(res, scale))
@@ -561,7 +566,7 @@ def run_kautocor(ctx, case):
     g = abs(sum(e[m] * xpad[p + m - i] for m in range(n + p)))
     scale = sum(aabs[j] * absr[abs(i - j)] for j in range(p + 1))
     ctx.err("kautocor:gradient/scale", ratio(g, scale), 1e-9)
-    if not within(g, scale):
+    if not within(g, scale) and g * 10 ** 12 > max(aabs) * max(absr):
       ctx.violation("kautocor/energy-gradient-nonzero", case, row=i,
                     a=[float(v) for v in a], ratio=ratio(g, scale))
       return True
